@@ -1,0 +1,154 @@
+//go:build verif
+
+package grpc
+
+// Contracts for govc (contract-based deductive verification, see /verif/DESIGN.md).
+// This file contains comments only and is compiled only with the build tag `verif`.
+
+// ---------------------------------------------------------------------------------------------
+// Ghost model. A bytes.Buffer is a byte queue of which only the length matters here (glen). Calls of the gRPC
+// processor are counted: nMsg messages, nEnd of them carrying end-of-stream; lastMsg* describe the latest call.
+// Codecs are opaque; what is tracked is the wire-format family each decoder reads / each encoder writes
+// (10 gzip, 20 deflate, 31 snappy framed stream, 32 snappy block).
+
+//@ ghost field bytes.Buffer.glen int
+//@ ghost var nMsg int
+//@ ghost var nEnd int
+//@ ghost var lastMsgEnd bool
+//@ ghost var lastMsgNil bool
+//@ ghost var lastMsgLen int
+//@ ghost var lastDecFmt int
+//@ ghost var lastEncFmt int
+
+//@ pred fmtFor(enc Encoding) = ite(enc == Gzip, 10, ite(enc == Deflate, 20, ite(enc == Snappy, 31, 0)))
+
+//@ extern func (*bytes.Buffer).Write
+//@   modifies b.glen
+//@   ensures b.glen == old(b.glen) + len(p) && n == len(p) && err == nil
+//@ extern func (*bytes.Buffer).WriteByte
+//@   modifies b.glen
+//@   ensures b.glen == old(b.glen) + 1 && result == nil
+//@ extern func (*bytes.Buffer).Len
+//@   ensures result == b.glen
+//@ extern func (*bytes.Buffer).Bytes
+//@   ensures len(result) == b.glen
+//@ extern func (*bytes.Buffer).ReadByte
+//@   modifies b.glen
+//@   ensures old(b.glen) > 0 ==> b.glen == old(b.glen) - 1 && result1 == nil
+//@   ensures old(b.glen) <= 0 ==> b.glen == old(b.glen)
+//@ extern func (*bytes.Buffer).Read
+//@   modifies b.glen, p[*]
+//@   ensures n == min(len(p), old(b.glen)) && b.glen == old(b.glen) - n
+//@ extern func binary.Read
+//@   modifies as(r, *bytes.Buffer).glen, *as(data, *uint32)
+//@   ensures old(as(r, *bytes.Buffer).glen) >= 4 ==> result == nil
+//@   ensures result == nil ==> as(r, *bytes.Buffer).glen == old(as(r, *bytes.Buffer).glen) - 4
+//@ extern func binary.Write
+//@   modifies as(w, *bytes.Buffer).glen
+//@   ensures typeis(data, uint32) ==> as(w, *bytes.Buffer).glen == old(as(w, *bytes.Buffer).glen) + 4
+
+//@ extern func gzip.NewReader
+//@   modifies lastDecFmt
+//@   ensures lastDecFmt == 10
+//@ extern func flate.NewReader
+//@   modifies lastDecFmt
+//@   ensures lastDecFmt == 20
+//@ extern func snappy.NewReader
+//@   modifies lastDecFmt
+//@   ensures lastDecFmt == 31
+//@ extern func gzip.NewWriter
+//@   modifies lastEncFmt
+//@   ensures lastEncFmt == 10 && result != nil
+//@ extern func flate.NewWriter
+//@   modifies lastEncFmt
+//@   ensures lastEncFmt == 20 && result0 != nil
+//@ extern func snappy.Encode
+//@   modifies lastEncFmt
+//@   ensures lastEncFmt == 32
+//@ extern func snappy.NewBufferedWriter
+//@   modifies lastEncFmt
+//@   ensures lastEncFmt == 31 && result != nil
+//@ extern func (*gzip.Writer).Write
+//@ extern func (*gzip.Writer).Close
+//@ extern func (*flate.Writer).Write
+//@ extern func (*flate.Writer).Close
+//@ extern func (*snappy.Writer).Write
+//@ extern func (*snappy.Writer).Close
+//@ extern iface io.Closer.Close
+
+//@ iface Processor.Message
+//@   modifies nMsg, nEnd, lastMsgEnd, lastMsgNil, lastMsgLen
+//@   ensures nMsg == old(nMsg) + 1 && nEnd == old(nEnd) + ite(streamEnded, 1, 0)
+//@   ensures lastMsgEnd == streamEnded && lastMsgNil == (data == nil) && lastMsgLen == len(data)
+
+//@ func (*adapter).isEnabled
+//@   serves C11
+//@   requires a != nil && a.enabled != nil
+//@   ensures result == (*a.enabled > 0)
+
+//@ func gunzip
+//@   serves C11
+//@   modifies lastDecFmt
+//@   ensures[reads-gzip] lastDecFmt == 10
+//@ func deflate
+//@   serves C11
+//@   modifies lastDecFmt
+//@   ensures[reads-deflate] lastDecFmt == 20
+
+// ---------------------------------------------------------------------------------------------
+// adapter.Data: reassembly of length-prefixed messages across arbitrary DATA boundaries.
+
+//@ pred adapterOK(a *adapter) = a != nil && a.enabled != nil && a.processor != nil && a.sink != nil && (a.state == readingMetadata || a.state == readingMessageData) && a.buffer.glen >= 0 && a.buffer.glen < 4294967296
+
+//@ func (*adapter).Data
+//@   serves C11
+//@   safe make
+//@   requires adapterOK(a) && a.buffer.glen + len(data) < 4294967296
+//@   modifies a.buffer.glen, a.state, a.compressed, a.length, nMsg, nEnd, lastMsgEnd, lastMsgNil, lastMsgLen, lastDecFmt, pcN, pcKind, pcSelf, pcEnd, pcData
+//@   ensures[state-well-formed] adapterOK(a)
+//@   ensures[non-grpc-passes-through] *a.enabled <= 0 ==> pcN == old(pcN) + 1 && pcKind == 1 && pcSelf == a.sink && pcData == data && pcEnd == streamEnded && nMsg == old(nMsg)
+//@   ensures[no-message-withheld] *a.enabled > 0 && result == nil ==>
+//@        (a.state == readingMetadata && a.buffer.glen < 5) || (a.state == readingMessageData && a.buffer.glen < a.length)
+//@   ensures[end-of-stream-delivered-once] *a.enabled > 0 && result == nil && streamEnded && a.state == readingMetadata && a.buffer.glen == 0 ==> nEnd == old(nEnd) + 1 && lastMsgEnd
+//@   ensures[end-of-stream-at-most-once-and-last] nEnd <= old(nEnd) + 1 && (nEnd == old(nEnd) + 1 ==> lastMsgEnd)
+//@   ensures[no-end-without-flag] !streamEnded ==> nEnd == old(nEnd)
+//@   ensures[bare-end-of-stream-adds-no-message] *a.enabled > 0 && result == nil && streamEnded && len(data) == 0 && old(a.state == readingMetadata && a.buffer.glen == 0) ==>
+//@        nMsg == old(nMsg) + 1 && lastMsgNil && lastMsgEnd
+//@   loop 0 invariant adapterOK(a) && *a.enabled > 0 && nEnd == old(nEnd)
+//@   loop 0 invariant nMsg >= old(nMsg) && (len(old(data)) == 0 && old(a.state == readingMetadata && a.buffer.glen == 0) ==> nMsg == old(nMsg) && a.state == readingMetadata && a.buffer.glen == 0)
+//@   at call 1 of Message before assert[message-has-prefixed-length] a.compressed && a.encoding == Identity || !a.compressed ==> len(data) == a.length
+//@   at call 1 of Message before assert[decoded-with-stream-encoding] a.compressed && a.encoding != Identity ==> lastDecFmt == fmtFor(a.encoding)
+
+// ---------------------------------------------------------------------------------------------
+// emitter.Message: the pass-through processor re-emits what the adapter delivered.
+
+//@ func (*emitter).Message
+//@   serves C11
+//@   requires e != nil && e.adapter != nil && e.sink != nil
+//@   modifies lastEncFmt, pcN, pcKind, pcSelf, pcEnd, pcData
+//@   ensures[one-data-frame] result == nil ==> pcN == old(pcN) + 1 && pcKind == 1 && pcSelf == e.sink && pcEnd == streamEnded
+//@   ensures[bare-end-of-stream-adds-no-message] data == nil && streamEnded && result == nil ==> len(pcData) == 0
+//@   ensures[uncompressed-message-is-prefix-plus-payload] !(data == nil && streamEnded) && result == nil && (!e.adapter.compressed || e.adapter.encoding == Identity) ==> len(pcData) == 5 + len(data)
+//@   ensures[same-wire-format-as-the-decoder] !(data == nil && streamEnded) && result == nil && e.adapter.compressed && e.adapter.encoding != Identity ==> lastEncFmt == fmtFor(e.adapter.encoding)
+
+//@ func (*emitter).Header
+//@   serves C11
+//@   requires e != nil && e.sink != nil
+//@   modifies pcN, pcKind, pcSelf, pcEnd, pcHeaders, pcPrio
+//@   ensures[forwards-unchanged] pcN == old(pcN) + 1 && pcKind == 2 && pcSelf == e.sink && pcHeaders == headers && pcEnd == streamEnded && pcPrio == priority
+
+//@ func (*adapter).Priority
+//@   serves C11
+//@   requires a != nil && a.sink != nil
+//@   modifies pcN, pcKind, pcSelf, pcPrio
+//@   ensures[forwards-unchanged] pcN == old(pcN) + 1 && pcKind == 3 && pcSelf == a.sink && pcPrio == priority
+//@ func (*adapter).RSTStream
+//@   serves C11
+//@   requires a != nil && a.sink != nil
+//@   modifies pcN, pcKind, pcSelf, pcCode
+//@   ensures[forwards-unchanged] pcN == old(pcN) + 1 && pcKind == 4 && pcSelf == a.sink && pcCode == errCode
+//@ func (*adapter).PushPromise
+//@   serves C11
+//@   requires a != nil && a.sink != nil
+//@   modifies pcN, pcKind, pcSelf, pcPromise, pcHeaders
+//@   ensures[forwards-unchanged] pcN == old(pcN) + 1 && pcKind == 5 && pcSelf == a.sink && pcPromise == promiseID && pcHeaders == headers
